@@ -8,6 +8,7 @@ package harness
 // the meaning of every generated text is decided by the reference model.
 
 import (
+	"math/big"
 	"encoding/json"
 	"strconv"
 	"strings"
@@ -21,7 +22,7 @@ import (
 // Documents (G-doc)
 
 var docKeys = []string{"a", "b", "c", "d", "", "é", "k-1", "a", "A", "B", "É", "a "}
-var docStrings = []string{"", "a", "b", "ab", "é", "𝒳y", "10", "1e2", "x y", "'", "\"", "\\", "`", "100%", "%s%d", "a%%b", "<&>", "\u2028"}
+var docStrings = []string{"", "a", "b", "ab", "é", "𝒳y", "10", "1e2", "x y", "'", "\"", "\\", "`", "100%", "%s%d", "a%%b", "<&>", "\u2028", "l'été", "'𝄞", "it's"}
 var docNumbers = []float64{0, 1, -1, 2, 3, 10, 0.5, -2.5, 1e15, 7}
 
 // Text and numbers whose representation matters: code points at every UTF-8 length boundary,
@@ -31,7 +32,9 @@ var docNumbers = []float64{0, 1, -1, 2, 3, 10, 0.5, -2.5, 1e15, 7}
 var hardDocStrings = []string{"\ufffd", "\ufffdabc", "\u007f", "\u0080", "\u07ff", "\u0800", "\uffff", "\U00010000", "\U0010ffff", "\u0301a", "ǆ", "ǅa", "ა", "ß", "İ", "\u0085", "\u00a0x", "\ufeffa", "a\u0000b",
 	"9223372036854775807", "9223372036854775808", "9999999999999999999", "18446744073709551616", "9007199254740993", "0.23333333333333334", "-0", "1e400", "-1e-400", "1E+2", "12345678901234567890123", "é\u0301𝄞", "null", "true", "[]", "{}", "\"q\"",
 	// text that looks like an escape sequence or a markup entity (serialisers that post-process their output)
-	"\\u003c", "\\u003e\\u0026", "a\\nb", "\\\\", "\\\"", "\\u0041", "&lt;&amp;", "\\x41", "%41", "\\'", "\\`", "<>&", "</script>", "\\u2028"}
+	"\\u003c", "\\u003e\\u0026", "a\\nb", "\\\\", "\\\"", "\\u0041", "&lt;&amp;", "\\x41", "%41", "\\'", "\\`", "<>&", "</script>", "\\u2028",
+	// a quote next to characters of two, three and four bytes (raw strings escape the quote: offsets counted in bytes vs runes)
+	"é'é", "''é", "𝄞'", "'\u0080", "ა'ა'", "'\uffff'"}
 var hardDocNumbers = []float64{1e21, -1.5e300, 1e308, -1e308, 1.7976931348623157e308, 5e-324, 1e-7, 1.2345678901234568e-10, 6.02214076e23, 9007199254740992, 9007199254740993, 9223372036854775807, 9223372036854775808, 18446744073709551616,
 	0.1, 0.23333333333333334, 1.4000000000000001, 1e20, 123456789012345680000, 1e-6, 0.000001234, 999999999999999900000, -1e21, 4.35, 0.30000000000000004, 2.5e-8, 1e16, 12345678.9}
 
@@ -362,10 +365,50 @@ func (g *exprGen) expr(cur interface{}, depth int) []string {
 	case roll < 72:
 		inner := g.expr(cur, depth+1)
 		return join([]string{"("}, inner, []string{")"})
+	case roll < 75 && g.f.projections && !g.f.nav:
+		return g.sharedHead(cur, depth+1)
 	case roll < 90 && g.f.boolean:
 		return g.boolean(cur, depth+1)
 	default:
 		return g.chain(cur, depth, 3)
+	}
+}
+
+var sharedHeadLits = []string{"`[0,0,0]`", "`[1,2,3]`", "`[\"a\",\"b\",\"c\",\"d\",\"e\"]`", "`[1,2,3,4,5,6]`", "`[[1],[2],[3]]`", "`[0,1,2,3,4,5,6]`", "`[]`", "`[1]`", "`[[1,2,3],0]`"}
+
+// sharedHead: the same list (a literal, which the compiled expression owns, or one list of the
+// document) at the head of several independent flattens, merges or concatenations. Each of them
+// must build its own result: whatever one of them appends behind the shared list must not be
+// seen by the others. (JSON decoding leaves spare capacity behind arrays of 3, 5, 6, 7, ...
+// elements, which is where an append that does not copy first puts the new elements.)
+func (g *exprGen) sharedHead(cur interface{}, depth int) []string {
+	var x []string
+	if g.pct(50, "shLit") {
+		x = []string{sharedHeadLits[g.n(len(sharedHeadLits), "shLitV")]}
+	} else {
+		x = g.chain(cur, depth, 2)
+	}
+	tail := func(label string) []string {
+		if g.pct(50, label) {
+			return []string{ref.SpellLiteral(genScalar(g.t))}
+		}
+		return g.chain(cur, depth, 2)
+	}
+	switch g.n(4, "shForm") {
+	case 0: // two flattens with the same head, side by side
+		return join([]string{"[", "["}, x, []string{","}, tail("shY"), []string{"]", "[]", ",", "["}, x, []string{","}, tail("shZ"), []string{"]", "[]", "]"})
+	case 1: // one flatten per element of a projection, all with the same head
+		p := g.chain(cur, depth, 2)
+		return join(p, []string{"[*]", ".", "["}, x, []string{",", "@", "]", "[]"})
+	case 2: // the same inside a hash, and once more at the end to see the head again
+		p := g.chain(cur, depth, 2)
+		return join([]string{"["}, p, []string{"[*]", ".", "{", "r", ":", "["}, x, []string{",", "@", "]", "[]", "}", ","}, x, []string{"]"})
+	default: // through map()
+		if !g.f.functions {
+			return join([]string{"[", "["}, x, []string{",", "@", "]", "[]", ","}, x, []string{"]"})
+		}
+		p := g.chain(cur, depth, 2)
+		return join([]string{"map", "(", "&", "["}, x, []string{",", "@", "]", "[]", ","}, p, []string{")"})
 	}
 }
 
@@ -668,7 +711,9 @@ func (g *exprGen) sliceText(cur interface{}) []string {
 			return nil
 		}
 		if g.pct(6, label+"Extreme") {
-			ext := []string{"9223372036854775807", "-9223372036854775808", "-9223372036854775807", "4611686018427387904", "2147483648", "-2147483649"}
+			ext := []string{"9223372036854775807", "-9223372036854775808", "-9223372036854775807", "4611686018427387904", "2147483648", "-2147483649",
+				// beyond int64, congruent to small values modulo 2^64 (see indexText)
+				"18446744073709551616", "18446744073709551617", "18446744073709551615", "-18446744073709551615", "-18446744073709551617", "9223372036854775808", "-9223372036854775809", "36893488147419103233"}
 			return []string{ext[g.n(len(ext), label+"ExtV")]}
 		}
 		v := g.n(2*l+5, label) - l - 2
@@ -774,8 +819,8 @@ func (g *exprGen) chain(cur interface{}, depth int, maxSteps int) []string {
 		lex = g.call(rep, depth)
 		rep = evalLex(lex, rep)
 	case "index":
-		i := g.indexFor(rep)
-		lex = []string{"[", g.spellInt(i), "]"}
+		txt, i := g.indexText(rep)
+		lex = []string{"[", txt, "]"}
 		rep = stepIndex(rep, i)
 	case "proj":
 		lex, rep = g.projStep(nil, rep, cur, depth, true)
@@ -800,8 +845,8 @@ func (g *exprGen) chain(cur interface{}, depth int, maxSteps int) []string {
 		case "stop":
 			return lex
 		case "index":
-			i := g.indexFor(rep)
-			lex = append(lex, "[", g.spellInt(i), "]")
+			txt, i := g.indexText(rep)
+			lex = append(lex, "[", txt, "]")
 			rep = stepIndex(rep, i)
 		case "multiselect":
 			lex = append(lex, ".")
@@ -880,6 +925,35 @@ func (g *exprGen) cond(elem interface{}, depth int) []string {
 
 // spellInt writes an index or slice part, sometimes zero padded ("number" is
 // ["-"] 1*digit: leading zeros are decimal, not octal).
+// indexText spells an index. Rarely (2 %) it is an integer beyond int64 that is congruent modulo
+// 2^64 (or 2^32) to a valid index: the grammar puts no bound on integers, so an implementation may
+// refuse such a text, but if it accepts it the index is out of range for every array.
+func (g *exprGen) indexText(cur interface{}) (string, int) {
+	i := g.indexFor(cur)
+	if !g.pct(2, "wrapIdx") {
+		return g.spellInt(i), i
+	}
+	return wrapInt(i, g.n(5, "wrapKind")), 9223372036854775807
+}
+
+func wrapInt(i int, kind int) string {
+	v := big.NewInt(int64(i))
+	two64 := new(big.Int).Lsh(big.NewInt(1), 64)
+	switch kind {
+	case 0:
+		v.Add(v, two64)
+	case 1:
+		v.Sub(v, two64)
+	case 2:
+		v.Add(v, new(big.Int).Lsh(big.NewInt(1), 65))
+	case 3:
+		v.Add(v, new(big.Int).Lsh(big.NewInt(1), 63)).Add(v, new(big.Int).Lsh(big.NewInt(1), 63)).Add(v, two64)
+	default:
+		v.Add(v, new(big.Int).Mul(two64, big.NewInt(10)))
+	}
+	return v.String()
+}
+
 func (g *exprGen) spellInt(i int) string {
 	if !g.pct(10, "padInt") {
 		return strconv.Itoa(i)
